@@ -362,6 +362,32 @@ func NewListenerManager() ListenerManager {
 	}
 }
 
+// managedStreamListener is a [StreamListener] handed out by the manager. Its Close takes the
+// manager lock first, so the manager lock is always acquired before the lock of a shared
+// listener, on the listen path and on the close path alike.
+type managedStreamListener struct {
+	StreamListener
+	managerMu *sync.Mutex
+}
+
+func (ln *managedStreamListener) Close() error {
+	ln.managerMu.Lock()
+	defer ln.managerMu.Unlock()
+	return ln.StreamListener.Close()
+}
+
+// managedPacketConn is the [net.PacketConn] counterpart of [managedStreamListener].
+type managedPacketConn struct {
+	net.PacketConn
+	managerMu *sync.Mutex
+}
+
+func (pc *managedPacketConn) Close() error {
+	pc.managerMu.Lock()
+	defer pc.managerMu.Unlock()
+	return pc.PacketConn.Close()
+}
+
 func (m *listenerManager) ListenStream(addr string) (StreamListener, error) {
 	m.mu.Lock()
 	defer m.mu.Unlock()
@@ -371,9 +397,8 @@ func (m *listenerManager) ListenStream(addr string) (StreamListener, error) {
 		streamLn = NewMultiStreamListener(
 			addr,
 			func() error {
-				m.mu.Lock()
+				// Runs inside the Close of a managed listener, which holds `m.mu`.
 				delete(m.streamListeners, addr)
-				m.mu.Unlock()
 				return nil
 			},
 		)
@@ -383,7 +408,7 @@ func (m *listenerManager) ListenStream(addr string) (StreamListener, error) {
 	if err != nil {
 		return nil, fmt.Errorf("unable to create stream listener for %s: %v", addr, err)
 	}
-	return ln, nil
+	return &managedStreamListener{StreamListener: ln, managerMu: &m.mu}, nil
 }
 
 func (m *listenerManager) ListenPacket(addr string) (net.PacketConn, error) {
@@ -395,9 +420,8 @@ func (m *listenerManager) ListenPacket(addr string) (net.PacketConn, error) {
 		packetLn = NewMultiPacketListener(
 			addr,
 			func() error {
-				m.mu.Lock()
+				// Runs inside the Close of a managed conn, which holds `m.mu`.
 				delete(m.packetListeners, addr)
-				m.mu.Unlock()
 				return nil
 			},
 		)
@@ -408,5 +432,5 @@ func (m *listenerManager) ListenPacket(addr string) (net.PacketConn, error) {
 	if err != nil {
 		return nil, fmt.Errorf("unable to create packet listener for %s: %v", addr, err)
 	}
-	return ln, nil
+	return &managedPacketConn{PacketConn: ln, managerMu: &m.mu}, nil
 }
